@@ -442,10 +442,10 @@ def demod_rule(rep: Report, ci: ClassInfo, fi: FuncInfo, tables: List[str]) -> i
                 o |= name_org[x.id]
         return o
 
-    argmins = [c for c in ast.walk(fi.node) if isinstance(c, ast.Call) and (call_name(c) or "") in ("torch.argmin",) and c.args]
+    argmins = [c for c in ast.walk(fi.node) if isinstance(c, ast.Call) and (((call_name(c) or "") in ("torch.argmin",) and c.args) or (isinstance(c.func, ast.Attribute) and c.func.attr == "argmin" and not (call_name(c) or "").startswith("torch.")))]
     hard = []
     for c in argmins:
-        src = full_origin(c.args[0])
+        src = full_origin(c.args[0] if (call_name(c) or "") == "torch.argmin" else c.func.value)
         hard.append((c, src))
     if not hard:
         rep.undecided("LABEL", fi, f"{ci.name}: nearest-point search", "no torch.argmin found in the hard branch")
@@ -462,7 +462,7 @@ def demod_rule(rep: Report, ci: ClassInfo, fi: FuncInfo, tables: List[str]) -> i
     # bits read from self.modulator.bit_patterns at the nearest index
     idx_names = set()
     for s in ast.walk(fi.node):
-        if isinstance(s, ast.Assign) and isinstance(s.value, ast.Call) and (call_name(s.value) or "") == "torch.argmin":
+        if isinstance(s, ast.Assign) and isinstance(s.value, ast.Call) and ((call_name(s.value) or "") == "torch.argmin" or (isinstance(s.value.func, ast.Attribute) and s.value.func.attr == "argmin")):
             for t in s.targets:
                 if isinstance(t, ast.Name):
                     idx_names.add(t.id)
@@ -625,6 +625,46 @@ def rule_bit_dtype(repo: Repo, rep: Report) -> int:
         else:
             rep.ok("BIT-DTYPE", fi, f"{cname}.forward: no integer-only subtraction on the raw bit tensor", "amplitude arithmetic is promoted to float before it can wrap", nontrivial=False)
     return n
+
+
+def dpsk_detection_evaluated(dd: FuncInfo):
+    """Unlisted spelling of the differential detector: the statements of forward up to the nearest-point index of the hard
+    branch are run (own arithmetic) for every ordered pair (previous, current) of M-PSK points, M = 4, 8; the index must
+    be the phase step (b - a) mod M - also when the two phases straddle the +-pi branch cut of torch.angle."""
+    import cmath as _cm
+    import math as _m
+
+    from ..frag import FragRaise, FragReturn, run_fragment
+
+    hard = next((s_ for s_ in dd.body if isinstance(s_, ast.If) and unparse(s_.test) in ("noise_var is None", "noise_var is None and (not self.soft_output)")), None)
+    if hard is None:
+        return UNDECIDED, "hard branch `if noise_var is None:` not found at the top level"
+    target = None
+    upto = []
+    for s_ in hard.body:
+        upto.append(s_)
+        if isinstance(s_, ast.Assign) and any(isinstance(c, ast.Call) and (call_name(c) or "").split(".")[-1] == "argmin" for c in ast.walk(s_.value)) and isinstance(s_.targets[0], ast.Name):
+            target = s_.targets[0].id
+            break
+    if target is None:
+        return UNDECIDED, "no nearest-point (argmin) statement in the hard branch"
+    pre = [s_ for s_ in dd.body[: dd.body.index(hard)] if isinstance(s_, ast.Assign)]
+    prog = pre + upto
+    for M in (4, 8):
+        pts = [_cm.exp(1j * 2 * _m.pi * k / M) for k in range(M)]
+        for a in range(M):
+            for b in range(M):
+                try:
+                    env = run_fragment(prog, {"y": [pts[a], pts[b]], "noise_var": None}, {"self.modulator.constellation": list(pts), "self.order": M, "self._bits_per_symbol": M.bit_length() - 1, "self.gray_coding": False}, max_steps=20000)
+                except (Unfoldable, FragRaise, FragReturn, TypeError, ValueError) as exc:
+                    return UNDECIDED, f"the hard branch is not evaluable ({exc})"
+                got = env.get(target)
+                while isinstance(got, list) and len(got) == 1:
+                    got = got[0]
+                want = (b - a) % M
+                if got != want:
+                    return VIOLATION, f"for order {M}, previous point {a} (phase {_cm.phase(pts[a]):.3f}) and current point {b} (phase {_cm.phase(pts[b]):.3f}) the detector decides for step {got} instead of {want}: the differential phase is not reduced correctly modulo 2 pi (pairs whose phases straddle the +-pi cut of torch.angle are decided wrongly)"
+    return OK, "unlisted spelling; the decided index is the phase step (b - a) mod M for every ordered pair of points, M = 4 and 8"
 
 
 def pi4_state_machine(rep: Report, fwd: FuncInfo, cname: str) -> int:
@@ -1144,7 +1184,8 @@ def rule_memory(repo: Repo, rep: Report) -> int:
 
         _form(rep, "MEMORY", dd, zs[0].value, ["y_current * torch.conj(y_prev)", "y_current * y_prev.conj()"], "DPSK detection: phase step = current symbol times conjugate of the previous one", "the detector must remove the previous symbol's phase", num=([{"y_current": complex(0.6, 0.8), "y_prev": complex(0.0, 1.0)}, {"y_current": complex(-1.0, 0.0), "y_prev": complex(0.6, -0.8)}], lambda p: p["y_current"] * p["y_prev"].conjugate()))
     else:
-        rep.undecided("MEMORY", dd, "DPSK detection y[1:] * conj(y[:-1])", "slices not recognised")
+        st_, d_ = dpsk_detection_evaluated(dd)
+        rep.add("MEMORY", dd, "DPSK detection: index of the phase step between consecutive symbols", st_, d_ if st_ != UNDECIDED else f"slices y[1:] * conj(y[:-1]) not recognised and {d_}", node=dd.node)
     n += 1
     # DPSK differential encoding
     dm = repo.method(repo.cls(f"{MD}/dpsk.py", "DPSKModulator"), "forward")
